@@ -107,6 +107,7 @@ class Result:
         self.writes: list[tuple[int, int]] = []
         self.labels: list[tuple[str, int]] = []
         self.labels_outside_loops: list[tuple[str, int]] = []  # defined neither in a loop iteration nor in anything nested in one
+        self.names_under_loops: set[str] = set()  # names of labels defined in a loop iteration or in anything nested in one
         self.stmt_spans: list[tuple[int, int]] = []  # (offset, length) of each emitting statement
         self.stats: dict = {}
         self.free_base = False  # the program emits before its first *=: offsets of that part are not specified
@@ -366,6 +367,8 @@ class Assembler:
                     res.labels.append((st["n"], run))
                 if not self._under_loop(scope):
                     res.labels_outside_loops.append((st["n"], run))
+                else:
+                    res.names_under_loops.add(st["n"])
                 placed.append((item, run, off))
                 continue
             n = self.size_of(item)
